@@ -56,6 +56,7 @@ type Engine struct {
 	extraOverlay    map[string]string // path -> replacement file (self-test mutations)
 	curProp         string            // property being checked in this run
 	specQuant       map[*ssa.Function]bool
+	boundedResults  []boundedResult
 	misfits         []*Contract       // contracts whose clauses no longer type-check against the code
 	constGlobals    map[*ssa.Global]*ssa.Const
 }
